@@ -31,7 +31,7 @@ RULE = ("modules of pygen projects (<= 140 lines); cursor = every offset inside 
 ASSUMPTIONS = ["completeness is demanded only for names bound on earlier lines (what every reading of later_locals "
                "agrees on) and only outside lambda / comprehension / definition-header positions",
                "dotted completions are checked for clause 1 and 2 only"]
-BUDGET = {"quick": (80, 300), "thorough": (200, 900)}
+BUDGET = {"quick": (80, 300), "thorough": (130, 900)}
 EXHAUSTIVE = {}
 CASE_TIMEOUT = 900
 REQUIRE = {"assist_calls": 20000, "completeness_checked": 500, "definitions_checked": 300, "truncated_calls": 5000}
@@ -179,10 +179,12 @@ def run_case(spec):
                     # and far away from that line -- one class, one key
                     kw["symptom_key"] = key
                     key = "assist|hostile:module-has-a-continuation-line-indented-less-than-its-statement"
-                elif cur["line"] in continuation_lines and "visible-name-not-offered|owner=module" in key:
-                    # witness: an imported module-level name is not proposed on a continuation line inside brackets
-                    import re as _re3
-                    key = _re3.sub(r"bound-by=Import(From)?(\[as\])?", "bound-by=import-statement", key) + "|cursor-on-a-continuation-line"
+                elif cur["line"] in continuation_lines and key.startswith("assist|visible-name-not-offered"):
+                    # witnesses: with the cursor on a continuation line inside brackets (continuation indented
+                    # deeper than its statement) rope leaves out some visible names -- `self`, module globals,
+                    # imported names; one mechanism, one key
+                    kw["symptom_key"] = key
+                    key = "assist|visible-name-not-offered|cursor-on-a-continuation-line"
                 if key in seen_keys:
                     return
                 seen_keys.add(key)
